@@ -219,7 +219,7 @@ def writer_tape(rep, F, fn, scale_term, rule='NUMERAL-SHAPE', scale_preserving=F
         pe = TB.PathEnum(F, fn, max_paths=600, cut_loops=True)
         paths = pe.run()
     except Undecided as e:
-        rep.undecided(rule, fn.key + ':point-and-exponent', str(e), fn.where())
+        rep.undecided_anchor(rule, fn.key + ':point-and-exponent', str(e), fn.where())
         return 0
     n = 0
     verdicts = {}
@@ -395,7 +395,7 @@ def string_tape(rep, F, fn, digits_param, spec_exp, rule='NUMERAL-SHAPE', delta_
         pe = TB.PathEnum(F, fn, max_paths=800, cut_loops=True)
         paths = pe.run()
     except Undecided as e:
-        rep.undecided(rule, fn.key + ':point-and-exponent', str(e), fn.where())
+        rep.undecided_anchor(rule, fn.key + ':point-and-exponent', str(e), fn.where())
         return 0
     verdicts = {}
     for (atoms, out), eff in zip(paths, pe.effects):
